@@ -61,7 +61,7 @@ func genSettleScenario(r *kernel.Rand, prop string) *kernel.Scenario {
 			sc.Steps = append(sc.Steps, kernel.St("sub-close", "sub", openSubs[j], "amt", amt, "mid", r.Weighted([]int{2, 1}), "mid_from", r.Intn(2)))
 			openSubs = append(openSubs[:j], openSubs[j+1:]...)
 		default:
-			sc.Steps = append(sc.Steps, kernel.St("pay", "from", r.Intn(2), "amt", amt))
+			sc.Steps = append(sc.Steps, kernel.St("pay", "from", r.Intn(2), "amt", amt, "coe", r.Weighted([]int{6, 1})))
 		}
 	}
 	if prop == "C04" {
@@ -96,6 +96,7 @@ func execSettle(t *testing.T, sc *kernel.Scenario, trace bool) *kernel.Result {
 		for i := range p.n {
 			side := i
 			p.n[i].Rec.OnEnable = func(r world.EnabledRec) {
+				p.enabledHook(side, r.Ch)
 				if !r.SigsOK {
 					s.Fail(prop+".enabled-not-fully-signed", "%s enabled %s v%d without a complete set of valid signatures", p.n[side].Name, s.ChanName(r.Ch), r.Version)
 				}
@@ -137,7 +138,9 @@ func execSettle(t *testing.T, sc *kernel.Scenario, trace bool) *kernel.Result {
 				}
 			case "pay":
 				side := int(st.Int("from")) & 1
+				p.cancelOnEnable = st.Int("coe") == 1
 				p.pay(i, p.chans[0][side], side, st.Int("amt"), payTO, false)
+				p.cancelOnEnable = false
 			case "sub-open":
 				p.subOpen(i, st)
 			case "sub-pay":
